@@ -24,14 +24,17 @@ use ctx::{Ctx, Tier};
 use std::collections::BTreeMap;
 use std::path::PathBuf;
 
+static LAST_PANIC: std::sync::Mutex<String> = std::sync::Mutex::new(String::new());
+
 fn main() {
     let args: Vec<String> = std::env::args().collect();
     if args.len() < 2 {
         eprintln!("usage: wsv <prop> [--tier quick|thorough] [--seed N] [--out DIR] [--shards N] | wsv replay <file>");
         std::process::exit(2);
     }
-    // silence panic messages of caught panics
-    std::panic::set_hook(Box::new(|_| {}));
+    // caught panics are expected outcomes (they stand for `Panic` in the model) and stay silent; the text and place
+    // of the last one is kept so that a panic which escapes every guard can be reported with it
+    std::panic::set_hook(Box::new(|info| { if let Ok(mut g) = LAST_PANIC.lock() { *g = format!("{}", info); } }));
     let prop = args[1].clone();
     let mut tier = Tier::Quick;
     let mut seed = 1u64;
@@ -49,26 +52,34 @@ fn main() {
     }
     let mut ctx = Ctx { prop: prop.clone(), tier, seed, out, shards, cases: Vec::new(), counters: BTreeMap::new(),
                         failures: Vec::new(), oracle_runs: 0, samples: Vec::new(), notes: Vec::new(), exhaustive: Vec::new() };
-    match prop.as_str() {
-        "C01" => { c01::run(&mut ctx); ctx.finish("corr.C01", "run_C01"); }
-        "C02" => { c02::run(&mut ctx); ctx.finish("corr.C02", "run_C02"); }
-        "C03" => { c03::run(&mut ctx); ctx.finish("corr.C03", "run_C03"); }
-        "C04" => { c04::run(&mut ctx); ctx.finish("corr.C04", "run_C04"); }
-        "C05" => { c05::run(&mut ctx); ctx.finish("corr.C05", "run_C05"); }
-        "C06" => { c06::run(&mut ctx); ctx.finish("corr.C06", "run_C06"); }
-        "C07" => { c07::run(&mut ctx); ctx.finish("corr.C07", "run_C07"); }
-        "C08" => { c08::run(&mut ctx); ctx.finish("corr.C08", "run_C08"); }
-        "C09" => { c09::run(&mut ctx); ctx.finish("corr.C09", "run_C09"); }
-        "C10" => { c10::run(&mut ctx); ctx.finish("corr.C10", "run_C10"); }
-        "C11" => { c11::run(&mut ctx); ctx.finish("corr.C11", "run_C11"); }
-        "C12" => { c12::run(&mut ctx); ctx.finish("corr.C12", "run_C12"); }
-        "C13" => { c13::run(&mut ctx); ctx.finish("corr.C13", "run_C13"); }
-        "C14" => { c14::run(&mut ctx); ctx.finish("corr.C14", "run_C14"); }
-        "C15" => { c15::run(&mut ctx); ctx.finish("corr.C15", "run_C15"); }
-        "C16" => { c16::run(&mut ctx); ctx.finish("corr.C16", "run_C16"); }
-        "C17" => { c17::run(&mut ctx); ctx.finish("corr.C17", "run_C17"); }
-        "C18" => { c18::run(&mut ctx); ctx.finish("corr.C18", "run_C18"); }
-        "C19" => { c19::run(&mut ctx); let r = if c19::is_fast() { "run_C19_fast" } else { "run_C19_default" }; ctx.finish("corr.C19", r); }
+    let (run_fn, module, runner): (fn(&mut Ctx), &str, &str) = match prop.as_str() {
+        "C01" => (c01::run, "corr.C01", "run_C01"),
+        "C02" => (c02::run, "corr.C02", "run_C02"),
+        "C03" => (c03::run, "corr.C03", "run_C03"),
+        "C04" => (c04::run, "corr.C04", "run_C04"),
+        "C05" => (c05::run, "corr.C05", "run_C05"),
+        "C06" => (c06::run, "corr.C06", "run_C06"),
+        "C07" => (c07::run, "corr.C07", "run_C07"),
+        "C08" => (c08::run, "corr.C08", "run_C08"),
+        "C09" => (c09::run, "corr.C09", "run_C09"),
+        "C10" => (c10::run, "corr.C10", "run_C10"),
+        "C11" => (c11::run, "corr.C11", "run_C11"),
+        "C12" => (c12::run, "corr.C12", "run_C12"),
+        "C13" => (c13::run, "corr.C13", "run_C13"),
+        "C14" => (c14::run, "corr.C14", "run_C14"),
+        "C15" => (c15::run, "corr.C15", "run_C15"),
+        "C16" => (c16::run, "corr.C16", "run_C16"),
+        "C17" => (c17::run, "corr.C17", "run_C17"),
+        "C18" => (c18::run, "corr.C18", "run_C18"),
+        "C19" => (c19::run, "corr.C19", if c19::is_fast() { "run_C19_fast" } else { "run_C19_default" }),
         _ => { eprintln!("unknown property {}", prop); std::process::exit(2); }
+    };
+    // a panic that escapes every guarded call inside the run: the harness leaves unguarded only what cannot fail
+    // on the pinned tree, so this is a finding about the library; it is recorded with the panic text and place,
+    // and what was collected so far is still written out
+    if std::panic::catch_unwind(std::panic::AssertUnwindSafe(|| run_fn(&mut ctx))).is_err() {
+        let msg = LAST_PANIC.lock().map(|g| g.clone()).unwrap_or_default();
+        ctx.fail("uncaught_panic", format!("{{\"what\":\"a library call the harness does not guard (it cannot fail on the pinned tree) panicked; the run stopped there\",\"panic\":{}}}", ctx::jstr(&msg)));
     }
+    ctx.finish(module, runner);
 }
